@@ -280,7 +280,24 @@ def replay_refusal(hist, root_inputs):
         else:
             step(ev)
     except Exception as e:  # noqa: BLE001
-        return type(e).__name__
+        first = type(e).__name__
+        # a refusal leaves the builder refusing: the same inconsistent call is made again (the caller caught the error and retried)
+        if ev["a"] in ("BranchExit", "AddCase", "ExitConditional", "Serialize"):
+            try:
+                if ev["a"] == "Serialize":
+                    h.to_json()
+                elif ev["a"] == "ExitConditional":
+                    c = builders[ev["ctx"]]
+                    (c._parent_conditional() if hasattr(c, "_parent_conditional") else c).__exit__(None, None, None)
+                elif ev["a"] == "AddCase":
+                    c = builders[ev["ctx"]]
+                    (c._parent_conditional() if hasattr(c, "_parent_conditional") else c).add_case(ev["i"])
+                else:
+                    step(ev)
+            except Exception as e2:  # noqa: BLE001
+                return first if type(e2).__name__ == first else f"{first}, then {type(e2).__name__} on the same call"
+            return f"{first}, then accepted on the same call"
+        return first
     return None
 
 
